@@ -1238,6 +1238,10 @@ var rRegistryNonNil = &Rule{
 					return
 				}
 				if globalOfLoad(mu.Map) == nil {
+					// the update may sit in a shared helper that receives the registry: judged at its call sites
+					if mp, isParam := mu.Map.(*ssa.Parameter); isParam {
+						n += registryUpdateViaHelper(c, p, fn, mu, mp)
+					}
 					return
 				}
 				mt, ok := types.Unalias(mu.Map.Type()).Underlying().(*types.Map)
@@ -1266,4 +1270,76 @@ var rRegistryNonNil = &Rule{
 		}
 		c.Min("registry updates in errbase", n, 5)
 	},
+}
+
+// registryUpdateViaHelper: mu stores into a map that helper h receives as parameter mp. For every call of h that passes
+// a package-level registry of errbase, the stored value must be known non-nil: h stores its parameter v only where a
+// boolean parameter u is false, and the call passes `v == nil` for u (or a non-nil function for v).
+func registryUpdateViaHelper(c *core.Ctx, p *load.Program, h *ssa.Function, mu *ssa.MapUpdate, mp *ssa.Parameter) int {
+	mi := paramIndex(h, mp)
+	vi := -1
+	if vp, ok := mu.Value.(*ssa.Parameter); ok {
+		vi = paramIndex(h, vp)
+	}
+	// boolean parameters known false / true at the update
+	known := map[int]bool{}
+	for _, l := range dominatingLits(mu.Block()) {
+		if bp, ok := l.V.(*ssa.Parameter); ok {
+			if k := paramIndex(h, bp); k >= 0 {
+				known[k] = !l.Neg
+			}
+		}
+	}
+	n := 0
+	for _, caller := range p.HandFuncs() {
+		sx.EachInstr(caller, func(in ssa.Instruction) {
+			call, ok := in.(*ssa.Call)
+			if !ok || sx.Callee(call) != h || mi >= len(call.Call.Args) {
+				return
+			}
+			g := globalOfLoad(call.Call.Args[mi])
+			if g == nil {
+				return
+			}
+			mt, ok := types.Unalias(call.Call.Args[mi].Type()).Underlying().(*types.Map)
+			if !ok || !sx.IsNamed(mt.Key(), load.ModPath+"/errbase", "TypeKey") {
+				return
+			}
+			if _, isFunc := types.Unalias(mt.Elem()).Underlying().(*types.Signature); !isFunc {
+				return
+			}
+			n++
+			nonNil := false
+			if vi >= 0 && vi < len(call.Call.Args) {
+				val := call.Call.Args[vi]
+				switch val.(type) {
+				case *ssa.Function, *ssa.MakeClosure:
+					nonNil = true
+				}
+				for k, truth := range known {
+					if k >= len(call.Call.Args) {
+						continue
+					}
+					bin, isBin := call.Call.Args[k].(*ssa.BinOp)
+					if !isBin {
+						continue
+					}
+					isNilCmp := (bin.X == val && sx.IsNil(bin.Y)) || (bin.Y == val && sx.IsNil(bin.X))
+					if isNilCmp && ((bin.Op == token.EQL && !truth) || (bin.Op == token.NEQ && truth)) {
+						nonNil = true
+					}
+				}
+				for _, l := range dominatingLits(call.Block()) {
+					if bin, isBin := l.V.(*ssa.BinOp); isBin && ((bin.Op == token.NEQ && !l.Neg) || (bin.Op == token.EQL && l.Neg)) {
+						if (bin.X == val && sx.IsNil(bin.Y)) || (bin.Y == val && sx.IsNil(bin.X)) {
+							nonNil = true
+						}
+					}
+				}
+			}
+			c.Check(nonNil, load.FnName(caller)+": registry update of "+g.Name(), call.Pos(), "the stored function is known non-nil",
+				"a possibly nil function is stored in the registry "+g.Name()+" (through "+load.FnName(h)+"): after a registration with nil the next error with that type key makes DecodeError/EncodeError call a nil function")
+		})
+	}
+	return n
 }
